@@ -4,7 +4,7 @@ Walks the module tree from src/lib.rs, resolving `#[cfg(..)]` / `#![cfg(..)]` at
 `mod x;` declarations, and records every place that names something which exists only when `std` or `alloc` is
 linked, together with the conjunction of the cfg predicates that guard it:
 
-  KStd        a `std::..` path, or a std-only macro (println!, eprintln!, print!, eprint!, dbg!)
+  KStd        a `std::..` path, or a std-only macro (println!, eprintln!, print!, eprint!, dbg!, is_*_feature_detected!)
   KAllocPath  an `alloc::..` path
   KHeap       a heap type / macro / method that the core prelude does not have (Vec, String, Box, vec!, format!,
               .to_vec(), .to_string(), .to_owned(), ...)
@@ -384,7 +384,8 @@ class Walker:
                     self.site(rel, "KHeap", t, pred)
                 elif t in HEAP_MACROS and nxt == ("p", "!"):
                     self.site(rel, "KHeap", t + "!", pred)
-                elif t in STD_MACROS and nxt == ("p", "!"):
+                elif (t in STD_MACROS or (t.startswith("is_") and t.endswith("_feature_detected"))) and nxt == ("p", "!"):
+                    # std-only macros (core has no run-time CPU feature detection)
                     self.site(rel, "KStd", t + "!", pred)
                 elif t in HEAP_METHODS and prev == ("p", ".") and nxt == ("p", "("):
                     self.site(rel, "KHeap", "." + t + "()", pred)
